@@ -14,11 +14,14 @@ import (
 	"strconv"
 	"strings"
 	"sync"
+	"time"
 
 	"github.com/go-jose/go-jose/v3"
 
 	"github.com/ory/fosite"
+	"github.com/ory/fosite/handler/oauth2"
 	enigma "github.com/ory/fosite/token/hmac"
+	"github.com/ory/fosite/token/jwt"
 )
 
 func init() {
@@ -284,8 +287,8 @@ func b64json(v interface{}) string {
 
 func runC06Jwt(rep *TReport, raw json.RawMessage) {
 	var r struct {
-		Mut    string
-		Accept bool
+		Mut, Validator, Age, Scope, Sess string
+		Accept                           bool
 	}
 	if err := json.Unmarshal(raw, &r); err != nil {
 		panic(err)
@@ -294,6 +297,12 @@ func runC06Jwt(rep *TReport, raw json.RawMessage) {
 	cfg.AT = "jwt"
 	w := NewWorld(cfg)
 	w.Rec.Keep = false
+	if r.Sess == "jwtsession" { // the library's own session type for JWT access tokens
+		w.TokenSessFn = func(subject string) fosite.Session {
+			return &oauth2.JWTSession{JWTClaims: &jwt.JWTClaims{Subject: subject, Issuer: Issuer, Extra: map[string]interface{}{}},
+				JWTHeader: &jwt.Headers{Extra: map[string]interface{}{}}, Subject: subject, Username: subject}
+		}
+	}
 	o1 := w.Exec(1, Op{Op: "ccreds", Client: "A", Auth: "ok", Scopes: []string{"a"}})
 	o2 := w.Exec(1, Op{Op: "ccreds", Client: "B", Auth: "ok", Scopes: []string{"a", "b"}})
 	tok, other := w.tok("at", o1.New["at"]), w.tok("at", o2.New["at"])
@@ -347,19 +356,74 @@ func runC06Jwt(rep *TReport, raw json.RawMessage) {
 		mutated = p[0] + "." + b64json(payload) + "." + p[2]
 	case "garbage":
 		mutated = "not.a.jwt"
+	case "crit_string_payload_edited":
+		hdr["crit"] = "exp"
+		payload["scp"], payload["sub"] = []string{"a", "b", "admin"}, "somebody-else"
+		mutated = b64json(hdr) + "." + b64json(payload) + "." + p[2]
+	case "crit_string_alg_none":
+		hdr["crit"], hdr["alg"] = "exp", "none"
+		payload["scp"], payload["sub"] = []string{"a", "b", "admin"}, "somebody-else"
+		mutated = b64json(hdr) + "." + b64json(payload) + "."
+	case "crit_unknown_extension":
+		hdr["crit"], hdr["x-ext"] = []string{"x-ext"}, true
+		payload["sub"] = "somebody-else"
+		mutated = b64json(hdr) + "." + b64json(payload) + "." + p[2]
+	case "embedded_jwk_signed_by_other_key":
+		s, _ := jose.NewSigner(jose.SigningKey{Algorithm: jose.RS256, Key: rk2}, &jose.SignerOptions{EmbedJWK: true})
+		payload["sub"] = "somebody-else"
+		pb, _ := json.Marshal(payload)
+		obj, _ := s.Sign(pb)
+		mutated, _ = obj.CompactSerialize()
+	case "b64_false_payload_edited":
+		hdr["b64"], hdr["crit"] = false, []string{"b64"}
+		payload["sub"] = "somebody-else"
+		mutated = b64json(hdr) + "." + b64json(payload) + "." + p[2]
+	case "header_not_an_object":
+		mutated = rawB64.EncodeToString([]byte(`["RS256"]`)) + "." + p[1] + "." + p[2]
 	default:
 		panic("unknown jwt mutation " + r.Mut)
 	}
 	// the server has seen (and accepted) the genuine tokens before the manipulated one arrives, as it would in production:
 	// nothing a validation leaves behind may vouch for a different token later
+	introspect := func(t string, scopes ...string) (fosite.AccessRequester, error) {
+		_, ar, err := w.Provider.IntrospectToken(w.ctx(1), t, fosite.AccessToken, NewSess(""), scopes...)
+		return ar, err
+	}
+	if r.Validator == "stateless" {
+		c2 := *w.Config
+		c2.TokenIntrospectionHandlers = fosite.TokenIntrospectionHandlers{&oauth2.StatelessJWTValidator{
+			Signer: &jwt.DefaultSigner{GetPrivateKey: func(context.Context) (interface{}, error) { return rk, nil }}, Config: &c2}}
+		sf := &fosite.Fosite{Store: w.Rec, Config: &c2}
+		introspect = func(t string, scopes ...string) (fosite.AccessRequester, error) {
+			_, ar, err := sf.IntrospectToken(w.ctx(1), t, fosite.AccessToken, &oauth2.JWTSession{}, scopes...)
+			return ar, err
+		}
+	}
 	for _, g := range []string{tok, other} {
-		_, _, gerr := w.Provider.IntrospectToken(w.ctx(1), g, fosite.AccessToken, NewSess(""))
+		_, gerr := introspect(g)
 		rep.cmp(raw, "genuine_jwt_accepted_first", true, gerr == nil, false)
 	}
+	if r.Age == "expired" {
+		time.Sleep(time.Duration(cfg.LAT)*Tick + time.Second)
+	}
+	scope := "a"
+	if r.Scope == "not_covered" {
+		scope = "b"
+	}
 	before, _ := json.Marshal(w.Project())
-	_, _, err := w.Provider.IntrospectToken(w.ctx(1), mutated, fosite.AccessToken, NewSess(""))
+	ar, err := introspect(mutated, scope)
 	rep.cmp(raw, "jwt_access_token_accepted", r.Accept, err == nil, false)
 	after, _ := json.Marshal(w.Project())
 	rep.cmp(raw, "state_unchanged", string(before), string(after), false)
+	if err == nil && r.Accept { // what the validator reports is what was granted: client, subject, scope, expiry
+		exp, _ := payload["exp"].(float64)
+		got := fmt.Sprintf("%s|%s|%s|%d", ar.GetClient().GetID(), ar.GetSession().GetSubject(), strings.Join(sortedCopy(ar.GetGrantedScopes()), " "),
+			ar.GetSession().GetExpiresAt(fosite.AccessToken).Unix())
+		want := fmt.Sprintf("A|%s|a|%d", Subject, int64(exp))
+		if r.Validator == "stateless" { // the access token carries no client_id claim unless the application's session adds one
+			want = "|" + strings.SplitN(want, "|", 2)[1]
+		}
+		rep.cmp(raw, "introspected_grant", want, got, false)
+	}
 	_ = fmt.Sprint
 }
